@@ -90,7 +90,7 @@ class P(Prop):
                 curves = []
                 for sp in rng.sample(SPECIES[:-1], ncur):
                     npt = rng.choice([1, 1, 2, 3, 4, 5])
-                    loads = sorted(rng.sample([Fraction(k, 8) for k in range(0, 9)], npt))
+                    loads = sorted(rng.sample([Fraction(k, 8) for k in range(0, 9)] + [Fraction(11, 10), Fraction(5, 4)], npt))   # incl. overload points
                     pts = [[l, Fraction(rng.randint(1, 160), 16)] for l in loads]
                     pass  # emission curve points must be given in increasing load order (the code does not sort them)
                     curves.append([sp, pts])
